@@ -22,6 +22,10 @@ CONSTANTS SortedIteration,    \* TRUE: set-valued steps are lowered in sorted or
           CloneIsolated,      \* TRUE: the preview works on a private copy of the tracked
                               \* database state; FALSE: what it records leaks into the state
                               \* the execution is generated from
+          OrderedLookup,      \* TRUE: an index looked up by its column list is the FIRST one recorded
+                              \* for the table, in the order the database reports its indexes (as
+                              \* the code is); FALSE: the tracked state lists a table's indexes in
+                              \* an order that depends on the process (a set)
           PreviewPerBatch     \* TRUE: the preview is generated batch by batch, like the execution
                               \* (as repaired, bb71b75); FALSE: per task as a whole (as found)
 
@@ -41,6 +45,11 @@ Entries == {1, 2, 3}
 StepKinds == { [kind |-> "fixed", entries |-> {}], [kind |-> "index", entries |-> {}],
                [kind |-> "merge", entries |-> {}] }
              \cup { [kind |-> "set", entries |-> S] : S \in (SUBSET Entries) \ {{}} }
+             \* "lookup": DROP INDEX of the index found by its column list, when `entries` are the
+             \* indexes the table has over exactly those columns (db_index=True next to an
+             \* index_together / Meta.indexes entry over the same single column): ONE statement,
+             \* naming whichever candidate the lookup meets first
+             \cup { [kind |-> "lookup", entries |-> S] : S \in { T \in SUBSET Entries : Cardinality(T) >= 2 } }
 
 RECURSIVE Perms(_)
 Perms(S) == IF S = {} THEN { <<>> }
@@ -54,6 +63,9 @@ Sorted(S) == IF S = {} THEN <<>>
 LowerStep(i, st, tracked) ==
     IF st.kind = "fixed" THEN { << <<i, 0>> >> }
     ELSE IF st.kind = "index" THEN (IF i \in tracked THEN { <<>> } ELSE { << <<i, 0>> >> })
+    ELSE IF st.kind = "lookup"
+         THEN (IF OrderedLookup THEN { << <<i, Sorted(st.entries)[1]>> >> }
+               ELSE { << <<i, c>> >> : c \in st.entries })
     ELSE IF SortedIteration THEN { [k \in 1..Cardinality(st.entries) |-> <<i, Sorted(st.entries)[k]>>] }
     ELSE { [k \in 1..Len(p) |-> <<i, p[k]>>] : p \in Perms(st.entries) }
 
